@@ -29,6 +29,10 @@ func makeValue(id uint32, n int) []byte {
 
 var ttlClasses = []string{"0", "1000", "100000", "30d", "30d+1", "abs-future", "abs-past"}
 
+// ttlClassesFar adds an absolute time more than 30 days ahead (C09 only: the fake L2's
+// "remaining seconds" gete convention cannot express it, which merely keeps L1 empty).
+var ttlClassesFar = append(append([]string(nil), ttlClasses...), "abs-far")
+
 // ttlValue maps a TTL class to an exptime given the virtual clock origin.
 func ttlValue(class string, t0 uint32) uint32 {
 	switch class {
@@ -46,6 +50,8 @@ func ttlValue(class string, t0 uint32) uint32 {
 		return t0 + 1000000
 	case "abs-past":
 		return t0 - 1000000
+	case "abs-far":
+		return t0 + 40*24*3600
 	}
 	panic("ttl class " + class)
 }
